@@ -893,6 +893,9 @@ func c16MigrationCase(c *core.C, idx int) {
 	}
 	ws := c16BuildWorkspace(r, s, idx)
 
+	// merging ignore_only keys with nested paths (see c16merge.go); own PRNG stream
+	plans := c16PlanMerges(core.RandFor(c.Seed, "C16", idx, "merge"), ws, s, modIndex)
+
 	// B = edited schema (same module/file structure)
 	sb := s.Clone()
 	mut := &c16Mutator{r: r, s: sb, done: map[string]int{}}
@@ -901,6 +904,15 @@ func c16MigrationCase(c *core.C, idx int) {
 	for tries := 0; tries < 100 && len(edits) < want; tries++ {
 		if tag := mut.apply(); tag != "" {
 			edits[tag] = true
+		}
+	}
+
+	c16PlantMerges(plans, sb, 1000)
+	for _, p := range plans {
+		if p.Planted {
+			ws.Features["merge-ignore_only:"+p.Variant.Kind+":"+p.Variant.Name] = true
+			edits["planted-"+p.Variant.Plant] = true
+			c.Count("mig_merge_plans", 1)
 		}
 	}
 
@@ -972,7 +984,13 @@ func c16MigrationCase(c *core.C, idx int) {
 		if data, err := os.ReadFile(filepath.Join(rootB, "buf.yaml")); err == nil {
 			cfgs["(migrated) buf.yaml"] = string(data)
 		}
-		return map[string]any{"layout": ws.Layout, "features": featList, "edits": editList, "configs": cfgs}
+		var mp []string
+		for _, p := range plans {
+			if p.Planted {
+				mp = append(mp, p.String())
+			}
+		}
+		return map[string]any{"layout": ws.Layout, "features": featList, "edits": editList, "configs": cfgs, "merge_plans": mp}
 	}
 	cfgText := func() string {
 		w := witness()
@@ -1069,6 +1087,14 @@ func c16MigrationCase(c *core.C, idx int) {
 	}
 	if genDoc != nil {
 		c16MigratedTemplate(c, genDoc, filepath.Join(rootB, "buf.gen.yaml"))
+	}
+	if data, err := os.ReadFile(filepath.Join(rootB, "buf.yaml")); err == nil {
+		for _, p := range plans {
+			if p.Planted && c16MergeObserved(data, p) {
+				c.Count("mig_merged_keys_observed", 1)
+				c.Distinct("mig_merges", p.Variant.Kind+" "+p.Variant.Name+" "+p.Variant.KeyA+"+"+p.Variant.KeyB)
+			}
+		}
 	}
 
 	after := map[*c16Unit]*c16Obs{}
